@@ -867,52 +867,15 @@ class Assembler:
         # text is the anchor itself (token-exact), so any change to it loses the anchor (undecided), and the abstraction is
         # listed with the assumed contracts in the evidence
         for ab in spec.get('abstract', []):
-            if 'let' in ab:
-                # `let = "name"`: the whole initializer of `let name = <expr>;` (the replaced text is pinned by its hash in
-                # the ledger like every assumed contract, so an edit inside it is undecided, never silently ignored)
-                k0, k1 = fp.find_stmt('let %s' % ab['let'], ab.get('n', 0))
-                k1 += 1
-                d_ = 0
-                while k1 < fp.k_body_close and not (d_ == 0 and s.is_p(k1, '=')):    # an optional `: Type` before the `=`
-                    if s.kind(k1) == 'p' and s.s(k1) in '<([':
-                        d_ += 1
-                    elif s.kind(k1) == 'p' and s.s(k1) in '>)]':
-                        d_ -= 1
-                    elif s.is_p(k1, ';'):
-                        raise ExtractError('lost anchor: `let %s` in fn %s has no initializer' % (ab['let'], fnname))
-                    k1 += 1
-                ka = k1 + 1
-                kb = fp.stmt_end(ka) - 1
-                if kb < ka or not s.is_p(kb + 1, ';'):
-                    raise ExtractError('lost anchor: initializer of `let %s` in fn %s' % (ab['let'], fnname))
-            elif 'call' in ab:
-                # 15c: only the CALLEE of a path call is replaced -- `f(args)` becomes `as(<first>, args)`: the arguments stay the
-                # real text and are checked against the stand-in's contract (an edit to an argument is decided, not a lost anchor)
-                ka, kb = fp.find_stmt(ab['call'] + '(', ab.get('n', 0))
-                if s.is_p(ka - 1, '.') or s.is_p(ka - 1, '::'):
-                    raise ExtractError('lost anchor: call `%s(` in fn %s is not a plain path call' % (ab['call'], fnname))
-                first = ab.get('first', '')
-                if spec.get('journal_param'):
-                    first = first.replace('&mut verif_journal', '&mut *verif_journal')
-                ed.replace(s.t[ka][1], s.t[kb][2], ab['as'] + '(' + (first + ', ' if first else ''))
-                self.assumed.append({'function': '%s :: callee `%s` replaced by %s' % (fnname, ab['call'], ab['as']),
-                                     'sha256': hashlib.sha256(ab['call'].encode()).hexdigest(), 'proved_in': None})
-                self.fired.add('15c:replace-callee')
-                continue
-            elif 'whole_call' in ab:
-                # the whole call expression `f( .. )` named by its callee (arguments included, whatever they are; the replaced
-                # text is pinned by hash like a let-form): for calls whose argument is outside the subset, e.g. an async block
-                ka, kq = fp.find_stmt(ab['whole_call'] + '(', ab.get('n', 0))
-                kb = s.match()[kq]
-            else:
-                ka, kb = fp.find_stmt(ab['expr'], ab.get('n', 0))
-            orig = s.text[s.t[ka][1]:s.t[kb][2]]
-            as_text = ab['as'].replace('&mut verif_journal', '&mut *verif_journal') if spec.get('journal_param') else ab['as']
-            ed.replace(s.t[ka][1], s.t[kb][2], as_text)
-            what = ('initializer of `let %s`' % ab['let']) if 'let' in ab else ('expression `%s`' % re.sub(r'\s+', ' ', orig)[:160])
-            self.assumed.append({'function': '%s :: %s abstracted as %s' % (fnname, what, ab['as'].split('(')[0].strip()),
-                                 'sha256': hashlib.sha256(re.sub(r'\s+', ' ', orig).encode()).hexdigest(), 'proved_in': None})
-            self.fired.add('15:abstract-expression')
+            try:
+                self._abstract_one(s, fp, ed, spec, fnname, ab)
+            except ExtractError as e:
+                # `optional = true`: an abstraction whose anchor is gone is skipped -- the code that stands there now is handed
+                # to Verus as it is (and is judged by the contracts, or is undecided if it is outside the subset)
+                if ab.get('optional') and 'lost anchor' in str(e):
+                    self.dropped_closure_contracts.append('%s: abstraction skipped (anchor absent): %s' % (fnname, str(e)[:120]))
+                    continue
+                raise
         for nf in spec.get('nested', []):
             nitem = self.find_nested(s, fp, nf['name'])
             nfp = FnParts(nitem)
@@ -957,6 +920,54 @@ class Assembler:
             new = desugar.desugar_stmt(s.text[a:b], ds.get('ops', '+-*/%'))
             ed.replace(a, b, new)
             self.fired.add('10:operator-desugar')
+
+    def _abstract_one(self, s, fp, ed, spec, fnname, ab):
+        if 'let' in ab:
+            # `let = "name"`: the whole initializer of `let name = <expr>;` (the replaced text is pinned by its hash in
+            # the ledger like every assumed contract, so an edit inside it is undecided, never silently ignored)
+            k0, k1 = fp.find_stmt('let %s' % ab['let'], ab.get('n', 0))
+            k1 += 1
+            d_ = 0
+            while k1 < fp.k_body_close and not (d_ == 0 and s.is_p(k1, '=')):    # an optional `: Type` before the `=`
+                if s.kind(k1) == 'p' and s.s(k1) in '<([':
+                    d_ += 1
+                elif s.kind(k1) == 'p' and s.s(k1) in '>)]':
+                    d_ -= 1
+                elif s.is_p(k1, ';'):
+                    raise ExtractError('lost anchor: `let %s` in fn %s has no initializer' % (ab['let'], fnname))
+                k1 += 1
+            ka = k1 + 1
+            kb = fp.stmt_end(ka) - 1
+            if kb < ka or not s.is_p(kb + 1, ';'):
+                raise ExtractError('lost anchor: initializer of `let %s` in fn %s' % (ab['let'], fnname))
+        elif 'call' in ab:
+            # 15c: only the CALLEE of a path call is replaced -- `f(args)` becomes `as(<first>, args)`: the arguments stay the
+            # real text and are checked against the stand-in's contract (an edit to an argument is decided, not a lost anchor)
+            ka, kb = fp.find_stmt(ab['call'] + '(', ab.get('n', 0))
+            if s.is_p(ka - 1, '.') or s.is_p(ka - 1, '::'):
+                raise ExtractError('lost anchor: call `%s(` in fn %s is not a plain path call' % (ab['call'], fnname))
+            first = ab.get('first', '')
+            if spec.get('journal_param'):
+                first = first.replace('&mut verif_journal', '&mut *verif_journal')
+            ed.replace(s.t[ka][1], s.t[kb][2], ab['as'] + '(' + (first + ', ' if first else ''))
+            self.assumed.append({'function': '%s :: callee `%s` replaced by %s' % (fnname, ab['call'], ab['as']),
+                                 'sha256': hashlib.sha256(ab['call'].encode()).hexdigest(), 'proved_in': None})
+            self.fired.add('15c:replace-callee')
+            return
+        elif 'whole_call' in ab:
+            # the whole call expression `f( .. )` named by its callee (arguments included, whatever they are; the replaced
+            # text is pinned by hash like a let-form): for calls whose argument is outside the subset, e.g. an async block
+            ka, kq = fp.find_stmt(ab['whole_call'] + '(', ab.get('n', 0))
+            kb = s.match()[kq]
+        else:
+            ka, kb = fp.find_stmt(ab['expr'], ab.get('n', 0))
+        orig = s.text[s.t[ka][1]:s.t[kb][2]]
+        as_text = ab['as'].replace('&mut verif_journal', '&mut *verif_journal') if spec.get('journal_param') else ab['as']
+        ed.replace(s.t[ka][1], s.t[kb][2], as_text)
+        what = ('initializer of `let %s`' % ab['let']) if 'let' in ab else ('expression `%s`' % re.sub(r'\s+', ' ', orig)[:160])
+        self.assumed.append({'function': '%s :: %s abstracted as %s' % (fnname, what, ab['as'].split('(')[0].strip()),
+                             'sha256': hashlib.sha256(re.sub(r'\s+', ' ', orig).encode()).hexdigest(), 'proved_in': None})
+        self.fired.add('15:abstract-expression')
 
     def find_nested(self, s, fp, name):
         m = s.match()
